@@ -311,11 +311,11 @@ Qed.
 
 (* every constructor yields a valid focus list; the Frame clause holds iff the spec names an existing part *)
 Definition spec_ok (s : spec) : Prop :=
-  match s with SFrame _ _ _ _ hd ft part => parts_ok hd ft part | _ => True end.
+  match s with SFrame _ _ _ _ _ hd ft part => parts_ok hd ft part | _ => True end.
 
 Lemma construct_ok strict fuel h s : (strict = true -> spec_ok s) -> node_ok strict (construct fuel h s).
 Proof.
-  intros Hs. destruct s as [wd box ht sl keys|k wd box ht f ch dv cw vs|wd box ht body hd ft part|wd box ht top bot]; cbn [construct].
+  intros Hs. destruct s as [wd box ht wt sl keys|k wd box ht wt f ch dv cw vs|wd box ht wt body hd ft part|wd box ht wt top bot]; cbn [construct].
   - split; [exact valid_empty|]. cbn. discriminate.
   - destruct k; (split; [|cbn; discriminate]); cbn [n_c];
       try apply init_list_valid; try apply init_grid_valid;
